@@ -844,3 +844,40 @@ func HarnessC07Malformed() {
 	_ = ex.Validate()
 	verifReach("end")
 }
+
+// HarnessC12Spec: the parsed specification is read-only for validate's own code: every cell reachable
+// from the document and from the operations index is frozen while the whole Validate runs (both
+// continue-on-errors modes) on a small document with a body parameter, an array parameter whose
+// default / example / enum are unsorted string arrays under uniqueItems, a response with headers,
+// and the four solver-chosen rule violations of genSmallSpec.
+// (Writes made inside the loader / analyser / expander are behind the stubs and outside the claim.)
+func HarnessC12Spec() {
+	sw, ops, _ := genSmallSpec()
+	op := ops["GET"]["/p"]
+	body := spec.BodyParam("b", spec.RefSchema("#/definitions/D"))
+	q := spec.QueryParam("q").CollectionOf(spec.NewItems().Typed("string", ""), "csv")
+	q.UniqueItems = verifBool()
+	q.Default = []interface{}{"pear", "apple", "fig"}
+	q.Example = []interface{}{"pear", "apple", "fig"}
+	if verifBool() {
+		q.Enum = []interface{}{[]interface{}{"pear", "apple", "fig"}}
+	}
+	op.Parameters = []spec.Parameter{*body, *q}
+	h := spec.ResponseHeader().CollectionOf(spec.NewItems().Typed("string", ""), "csv")
+	h.UniqueItems = q.UniqueItems
+	h.Default = []interface{}{"b", "a", "c"}
+	resp := spec.Response{}
+	resp.Description = "ok"
+	resp.Headers = map[string]spec.Header{"X": *h}
+	resp.Schema = spec.RefSchema("#/definitions/D")
+	op.Responses.StatusCodeResponses = map[int]spec.Response{200: resp}
+	cont := verifBool()
+	s := newSpecHarnessValidator(sw, ops, cont, true)
+	s.schema = &spec.Schema{}
+	s.schema.Definitions = spec.Definitions{"parameter": spec.Schema{}}
+	verifFreeze(sw, "specification")
+	verifFreeze(ops, "operations")
+	_, _ = s.Validate(s.spec)
+	verifUnfreeze()
+	verifReach("end")
+}
